@@ -55,7 +55,17 @@ def field_updates(bv, W, names=None, _depth=0, _subst=None):
     for (bi, si_, p, r) in bv.field_writes:
         if bi not in bv.reach0:
             continue
-        chain = ".".join(smod._chain(p))
+        ch_ = smod._chain(p)
+        if _subst and p.get("p") and p["p"][0]["k"] == "deref" and 1 <= p["l"] <= len(_subst):
+            # a write through a `&mut` parameter: the field the caller lent (`helper(&mut self.id, ..)` writing `*current`)
+            a_ = _subst[p["l"] - 1]
+            pre = []
+            while a_[0] in ("ref", "deref", "field"):
+                if a_[0] == "field":
+                    pre.append(str(a_[2]))
+                a_ = a_[1]
+            ch_ = pre[::-1] + ch_
+        chain = ".".join(ch_)
         val = rd(bv._trace_rv(r, None, 0)) if r["k"] != "callret" else "undef"
         gs = []
         for (sb, truth), es in by_switch.items():
